@@ -1,18 +1,35 @@
+// Command ovtest writes the overlays to a directory for manual experiments:
+//   go run ./tools/ovtest <dir>   -> <dir>/overlay.json (cli), <dir>/overlay-lib.json, <dir>/corpus.json
 package main
 
 import (
 	"fmt"
 	"os"
+	"path/filepath"
+
+	"verif/corpus"
 	"verif/overlaygen"
 )
 
 func main() {
-	os.MkdirAll("/tmp/ovscratch", 0o755)
-	o, err := overlaygen.CLI("/repo", "/verif", "/tmp/ovscratch")
+	dir := "/tmp/ovscratch"
+	if len(os.Args) > 1 {
+		dir = os.Args[1]
+	}
+	os.MkdirAll(dir, 0o755)
+	o, err := overlaygen.CLI("/repo", "/verif", dir)
 	if err != nil {
 		fmt.Println("ERR", err)
 		os.Exit(1)
 	}
-	o.Write("/tmp/ovscratch/overlay.json")
-	fmt.Println(len(o.Replace))
+	o.Write(filepath.Join(dir, "overlay.json"))
+	l, err := overlaygen.Lib("/repo", "/verif", dir)
+	if err != nil {
+		fmt.Println("ERR", err)
+		os.Exit(1)
+	}
+	l.Write(filepath.Join(dir, "overlay-lib.json"))
+	docs, _ := corpus.Extract("/repo", 16<<10)
+	corpus.Save(filepath.Join(dir, "corpus.json"), docs)
+	fmt.Println(len(o.Replace), len(l.Replace), len(docs))
 }
